@@ -67,9 +67,14 @@ pub fn run(ctx: &mut Ctx) {
   if ctx.shard == 0 && ctx.resume.is_none() {
     let mut rows = 0;
     for first in 0..=255u16 {
-      let seconds: Vec<u8> = if first == 0xcb { (0..=255u16).map(|x| x as u8).collect() } else { vec![0x00, 0x5a, 0xff] };
+      // every second byte for every first byte, and for three-byte encodings a spread of third
+      // bytes that covers every page incl. 0xFFxx: what an instruction IS (length, block end,
+      // cost) must not depend on its operand value
+      let seconds: Vec<u8> = (0..=255u16).map(|x| x as u8).collect();
+      let thirds: Vec<u8> = if refcpu::info(first as u8, 0).len == 3 { vec![0x77, 0x00, 0x40, 0x7f, 0x80, 0xc0, 0xfe, 0xff] } else { vec![0x77] };
       for &second in seconds.iter() {
-        let bytes = [first as u8, second, 0x77, 0x00];
+       for &third in thirds.iter() {
+        let bytes = [first as u8, second, third, 0x00];
         let info = refcpu::info(first as u8, second);
         let res = std::panic::catch_unwind(|| {
           let (op, len, cycles) = decoder::decode(&bytes);
@@ -119,10 +124,11 @@ pub fn run(ctx: &mut Ctx) {
             }
           }
         }
+       }
       }
     }
     ctx.count("table-rows", rows);
-    ctx.sample("decode([op, second, 0x77, 0x00]) for all 256 first bytes and all 256 CB second bytes: length, block-end flag, base clock column vs reference table");
+    ctx.sample("decode([op, second, third, 0x00]) for all 256 first bytes x all 256 second bytes (x 8 third bytes for three-byte encodings): length, block-end flag, base clock column vs reference table");
   }
 
   let mut r = Runner {
